@@ -27,7 +27,7 @@ EXPLANATION = (
     "Removal - table agreement + must-pass: state strings have removeTrigger_<STATE> methods, handle layout agrees between addTrigger, both removers and the "
     "stored tuple, finishedBefore is appended between pop and call, removal during the before phase really removes unless the trigger already ran, the "
     "continuation leaves the BEFORE state. "
-    "Not decided here: DeferredList's own semantics (C04), what triggers do."
+    "Not decided here: DeferredList's own semantics (C04), what triggers do.  Declared limitation: when a drain is written with an assignment expression in the loop test or over an indexed work list of phase lists, the verdicts of that rule group are withheld (analysis error confined to the group), not guessed."
 )
 RULE_KINDS = {"*": "structural"}
 ASSUMPTIONS = [
@@ -130,6 +130,31 @@ def _drained_lists(e, mod, cls):
 def _getattr_self(e, var=None):
     return (isinstance(e, ast.Call) and dotted(e.func) == "getattr" and len(e.args) == 2 and src(e.args[0]) == "self"
             and (var is None or src(e.args[1]) == var))
+
+
+def _mark_unread_drain_shapes(f, known_lists):
+    """Things in a drain function that the drain rules cannot read: an assignment expression, a removal (pop / popleft / del x[0]) from something
+    that is not one of the phase lists (nor a local bound once to one), an indexed work list of phase lists.  They are recorded on the
+    function like un-inlined helpers, so that a verdict of the rule group is withheld (section-confined analysis error), never guessed."""
+    if not hasattr(f, "body"):
+        return
+    alias = set(known_lists)
+    for st_ in body_walk(f):
+        for t_, v_ in assign_pairs(st_):
+            if isinstance(t_, ast.Name) and src(v_) in ("self.before", "self.during", "self.after"):
+                alias.add(t_.id)
+        if isinstance(st_, ast.For) and isinstance(st_.target, ast.Name) and isinstance(st_.iter, (ast.Tuple, ast.List)):
+            alias.add(st_.target.id)
+    marks = []
+    for n in body_walk(f):
+        if isinstance(n, ast.NamedExpr):
+            marks.append("<assignment expression>")
+        elif _is_pop(n) and src(n.func.value) not in alias and not isinstance(getattr(f, "_drain_generator", None), str):
+            marks.append(f"<removal from {src(n.func.value)}>")
+        elif isinstance(n, ast.Delete) and any(isinstance(t_, ast.Subscript) for t_ in n.targets):
+            marks.append(f"<{src(n)}>")
+    if marks:
+        f._residual = sorted(set(list(getattr(f, "_residual", [])) + marks))
 
 
 def _drain_sites(ctx, f, g, q, names, lists_ok, rule_prefix):
@@ -356,6 +381,7 @@ def check(ctx):
     # ---- fireEvent ------------------------------------------------------------------------------------------------------------
     with section(ctx, 'fireEvent'):
         f = m["fireEvent"]
+        _mark_unread_drain_shapes(f, {"self.before", "self.during", "self.after"})
         g = ctx.cfg(f, swallowing=swallow)
         q = f"{Q}.fireEvent"
         sites = _drain_sites(ctx, f, g, q, names, {"self.before"}, "before")
@@ -442,6 +468,7 @@ def check(ctx):
     # ---- _continueFiring -----------------------------------------------------------------------------------------------------
     with section(ctx, '_continueFiring'):
         f = m["_continueFiring"]
+        _mark_unread_drain_shapes(f, {"self.before", "self.during", "self.after"})
         g = ctx.cfg(f, swallowing=swallow)
         q = f"{Q}._continueFiring"
         loops = [n for n in body_walk(f) if isinstance(n, ast.For) and isinstance(n.target, ast.Name) and isinstance(n.iter, (ast.Tuple, ast.List))]
@@ -661,4 +688,7 @@ SILENT = [
     # --- third round: the draining loops moved into a generator consumed by a comprehension and into a helper applied to captured lists
     Silent("before-phase-generator-and-late-phase-helper", BASE, "        beforeResults: List[Deferred[object]] = []\n        while self.before:\n            callable, args, kwargs = self.before.pop(0)\n            self.finishedBefore.append((callable, args, kwargs))\n            result = None\n            with _systemEventHandler:\n                result = callable(*args, **kwargs)\n            if isinstance(result, Deferred):\n                beforeResults.append(result)\n        DeferredList(beforeResults).addCallback(self._continueFiring)\n", "        waitFor = [outcome for outcome in self._runBeforePhase() if isinstance(outcome, Deferred)]\n        DeferredList(waitFor).addCallback(self._continueFiring)\n\n    def _runBeforePhase(self):\n        while self.before:\n            callable, args, kwargs = self.before.pop(0)\n            self.finishedBefore.append((callable, args, kwargs))\n            outcome = None\n            with _systemEventHandler:\n                outcome = callable(*args, **kwargs)\n            yield outcome\n",
            more=[(BASE, "        for phase in self.during, self.after:\n            while phase:\n                callable, args, kwargs = phase.pop(0)\n                with _systemEventHandler:\n                    callable(*args, **kwargs)\n", "        first, then = self.during, self.after\n        self._drainPhase(first)\n        self._drainPhase(then)\n\n    def _drainPhase(self, pending):\n        while pending:\n            callable, args, kwargs = pending.pop(0)\n            with _systemEventHandler:\n                callable(*args, **kwargs)\n")]),
+    # --- fourth round: a take-the-oldest helper and a work list of phase lists.  DECLARED LIMITATION: the drain rules do not read this shape (a removal from
+    # an element of an indexed work list); the verdicts of the _continueFiring rule group are withheld (section-confined analysis error), nothing is alarmed
+    Silent("late-phases-through-a-work-list-and-take-oldest-helper", BASE, "        for phase in self.during, self.after:\n            while phase:\n                callable, args, kwargs = phase.pop(0)\n                with _systemEventHandler:\n                    callable(*args, **kwargs)\n", "        todo = [self.during, self.after]\n        while todo:\n            entry = self._oldest(todo[0])\n            if entry is None:\n                del todo[0]\n                continue\n            callable, args, kwargs = entry\n            with _systemEventHandler:\n                callable(*args, **kwargs)\n\n    @staticmethod\n    def _oldest(pending):\n        if not pending:\n            return None\n        return pending.pop(0)\n", allow_error=True),
 ]
